@@ -56,6 +56,17 @@ type PetQuery struct {
 	Twin   *PetQuery
 	Me     interface{}
 	WithMe []interface{}
+	// a Dog answered by ANOTHER Go type (a view struct with the same field names) under an object-typed field
+	DogView *DogView
+}
+
+// DogView is a second Go type the application uses for the object type Dog; it is bound to nothing and only ever stands
+// where the schema says Dog.
+type DogView struct {
+	Name   string
+	Tricks []string
+	Buddy  interface{}
+	Twin   *DogView
 }
 
 // PetRoot is the root object.
@@ -88,7 +99,7 @@ func PetsModelV(variant int) *model.Schema {
 		{Kind: model.Object, Name: "Dog", Interfaces: []string{"Pet"}, Fields: []*model.FieldDef{f("name", str), f("tricks", model.ListOf(str)), f("buddy", model.Named("Pet")), f("twin", model.Named("Dog"))}},
 		{Kind: model.Union, Name: "Animal", Members: members},
 		{Kind: model.Object, Name: "Query", Interfaces: []string{"Pet"}, Fields: []*model.FieldDef{
-			f("name", str), f("buddy", model.Named("Pet")), f("twin", model.Named("Query")), f("me", model.Named("Pet")), f("withMe", model.ListOf(model.Named("Pet"))),
+			f("name", str), f("buddy", model.Named("Pet")), f("twin", model.Named("Query")), f("me", model.Named("Pet")), f("withMe", model.ListOf(model.Named("Pet"))), f("dogView", model.Named("Dog")),
 			f("pets", model.ListOf(model.Named("Pet"))), f("animals", model.ListOf(model.Named("Animal"))), f("pet", model.Named("Pet")), f("animal", model.Named("Animal")),
 			f("cats", model.ListOf(model.Named("Cat"))), f("lions", model.ListOf(model.Named("Lion"))),
 			f("typed", model.ListOf(model.Named("Pet"))), f("dogCopy", model.Named("Dog"))}},
@@ -131,6 +142,12 @@ func PetsData(variant int) (*PetRoot, *model.Graph) {
 	nq := node("Query", map[string]interface{}{"name": "the root", "buddy": nd1,"pets": model.VList(rn), "animals": model.VList(rn), "pet": rn[0], "animal": rn[1],
 		"cats": model.VList{nc1, nc2}, "lions": model.VList{nl1}, "typed": model.VList(rn), "dogCopy": nd1})
 	nq.F["twin"], nq.F["me"], nq.F["withMe"] = nq, nq, model.VList{nd1, nq, nc2}
+	dv := &DogView{Name: "view of rex", Tricks: []string{"sit"}}
+	dv.Twin = dv
+	q.DogView = dv
+	ndv := node("Dog", map[string]interface{}{"name": "view of rex", "tricks": model.VList{"sit"}, "buddy": nil})
+	ndv.F["twin"] = ndv
+	nq.F["dogView"] = ndv
 	root.F["query"] = nq
 	return &PetRoot{Query: q}, g
 }
